@@ -29,6 +29,29 @@ ARGS = {
 }
 
 
+def check(ctx):
+    V.check_properties_file(ctx, "Properties_%s.v" % ctx.prop)
+    run(ctx)
+    ctx.assumptions += ASSUMPTIONS
+
+
+ASSUMPTIONS = ["node Process/Close/Reopen outcomes are oracle parameters of the model (universally quantified in the theorems)",
+               "sync.Map Store/Delete/Load/Range contract; Go mutex semantics",
+               "the harness observes internal reference counts only as the boolean 'in use' through the verif-tagged snapshot hook"]
+PROPS = {"C05": check, "C06": check, "C07": check, "C20": check}
+_NOTE = ("Trusted: Coq 8.16.1 kernel + vm_compute; no axioms (Print Assumptions: closed under the global context); the Go correspondence "
+         "harness brokerh and its projection of observables; node behaviour, sync.Map and mutex semantics are modelled (oracle parameters), not verified.")
+_TECH = "Coq proof over executable model + differential correspondence (vm_compute on harness cases)"
+MANIFEST = {
+    "C05": {"text": "Broker.v registry model; theorems register_pipeline_ok_iff (acceptance <-> declarative wf_spec, all node lists, all states), refusal_frame, is_any_iff (all histories); tie: brokerh runs all node-type sequences <=5 with id faults/existing policies, BFS over the implementation's state space and random histories on the real Broker and Run_Broker.mismatches is evaluated by vm_compute on the same histories", "design_ref": "5.C05", "note": _NOTE, "technique": _TECH, "engine": "coq-broker"},
+    "C06": {"text": "theorems rc_exact / in_use_iff / nothing_pinned / remove_in_use_refused / rpan_spec over every history and close-failure oracle (invariant binv by induction over the operation list); tie: BFS + random histories, in-use / closed objects / registry snapshot compared after every call, plus an observation-only double-close oracle", "design_ref": "5.C06", "note": _NOTE, "technique": _TECH, "engine": "coq-broker"},
+    "C07": {"text": "theorems deny_sticky_node / deny_sticky_pipeline (over all histories), deny_*_refuses, allow_then_reregister, allow_node_reregister, invalid_policy_rejected_*, node_reregistration_local; tie: all policy sequences <=4 per id interleaved with removals + random histories, probe Send identifies the version linked", "design_ref": "5.C07", "note": _NOTE, "technique": _TECH, "engine": "coq-broker"},
+    "C20": {"text": "theorems reopen_all / reopen_reaches_registered / reopen_error_carried / reopen_errors_are_real for every visiting order of graphs and pipelines; tie: BFS states x each single failing object, Reopen observations accepted by Run_Broker.reopen_accepts", "design_ref": "5.C20", "note": _NOTE, "technique": _TECH, "engine": "coq-broker"},
+}
+ENGINE = {"name": "coq-broker", "path": "coq/Broker.v coq/BrokerProofs.v coq/Run_Broker.v harness/cmd/brokerh lib/eng_broker.py",
+          "serves_properties": ["C05", "C06", "C07", "C20"], "kind_free_text": "Coq model + proofs; Go differential driver; vm_compute comparison"}
+
+
 def run(ctx, prop=None):
     prop = prop or ctx.prop
     part = {}
@@ -61,6 +84,7 @@ def run(ctx, prop=None):
         rp = V.write_replay(ctx, "panic-%d" % cid, {"kind": "correspondence", "engine": "brokerh", "what": p, "case": cases.get(cid)})
         ctx.violations.append({"match": "panic", "replay": rp, "what": "Broker panicked: " + p})
     mism, failures = V.eval_shards(ctx, summ["files"])
+    V.prune_shards(summ["files"], keep=[f for f, _ in failures])
     for f, o in failures:
         rp = V.write_replay(ctx, "coqc-" + os.path.basename(f), {"kind": "correspondence", "theorem_or_correspondence": "Run_Broker.mismatches on " + f, "output": o})
         ctx.violations.append({"match": "coqc-failure", "replay": rp, "what": "case file %s could not be evaluated" % f, "no_input": True})
